@@ -152,6 +152,7 @@ def candidates (sp : Spec) (op : Op) : List Out :=
       | some id => match sp.target id with
         | some r => [⟨.val h.val, [.call r id]⟩, ⟨.val failDefault, [.call r id]⟩]
         | none => [⟨.val failDefault, []⟩, ⟨.val (builtinAnswer id (some frags.flatten)).val, []⟩]
+  | .hashNone => [⟨.val failDefault, []⟩]
   | .reserve _ => [⟨.null, []⟩]
   | .drop => [⟨.val 0, sp.live.map (.fin ·.2)⟩]
   | .tcopy _ => [⟨.val (-4), []⟩, ⟨.val 0, []⟩]
@@ -235,7 +236,8 @@ def parseOp (w : List String) : Option Op :=
   | ["e", "reserve", n] => (parseId n).map fun v => .reserve v.toNat
   | ["e", "fini"] => some .fini
   | ["e", "drop"] => some .drop
-  | ["e", "tcopy", r] => (parseDec r).map .tcopy
+  | ["e", "hashn"] => some .hashNone
+  | ["e", "tcopy", r] => (parseDec r).bind fun n => if n ≤ 99999 then some (.tcopy n) else none
   | _ => none
 
 def startOf (f : String) : Option Start :=
@@ -251,6 +253,17 @@ def stepOp (s : DSt) (op : Op) : DSt × String :=
     let out := (step s.m op).2
     runOp s op (evidAfter op out s.m.d)
 
+/-- `k` calls of `mpt_command_reserve` whose elements keep the placeholder handler (the caller does not activate them);
+    stops at the first refusal.  `commandReserve` on such tables is what `reserve_unique_any_table` is about. -/
+def holdRun (d : Disp) (w : Nat) : Nat → List Id → Disp × List Id
+  | 0, acc => (d, acc)
+  | k + 1, acc =>
+    match commandReserve d.tab w with
+    | (tab', some idx) =>
+      let id : Id := (((tab'.bind fun t => t.slots[idx]?).map (·.id)).getD 0)
+      holdRun { d with tab := tab' } w k (acc ++ [id])
+    | (tab', none) => ({ d with tab := tab' }, acc)
+
 def stepLine (s : DSt) (w : List String) : DSt × String :=
   match w with
   | ["e", "new", f] =>
@@ -263,9 +276,30 @@ def stepLine (s : DSt) (w : List String) : DSt × String :=
     | none => (s, "bad-op")
   | _ =>
     if !s.active then (s, "bad-op")
-    else match parseOp w with
+    else match w with
+      | ["e", "djb2", hex] =>
+        -- `mpt_hash_djb2` with `len = -1` (C string) and with the byte count
+        match parseHex hex with
+        | some b =>
+          let z := b.takeWhile (· != 0)
+          (s, s!"R z={(mptHash z).toNat} n={(mptHash b).toNat} log=- | C {fmtCModel s.m} | I {fmtI s.m "0" 0 []} | S z={(hashDjb2 z).toNat} n={(hashDjb2 b).toNat} log=- ; {fmtCSpec s.sp}")
+        | none => (s, "bad-op")
+      | ["e", "hold", ww, kw] =>
+        match parseDec ww, parseDec kw with
+        | some wd, some k =>
+          if k > 300 ∨ wd > 9 then (s, "bad-op")
+          else
+            let (d1, ids) := holdRun s.m.d wd k []
+            let fresh := ids.eraseDups.length == ids.length && ids.all fun i => (commandGet s.m.d.tab i).isNone
+            let d2 := ids.foldl (fun d i => (dispatchSet d i none 0).1) d1
+            let m' : St := { s.m with d := d2 }
+            let last := (ids.getLast?.map (·.toNat)).getD 0
+            ({ s with m := m' },
+             s!"R ok n={ids.length} fresh={if fresh then 1 else 0} log=- | C {fmtCModel m'} | I {fmtI m' (toString last) 0 []} | S ok n={s.sp.reserveCount wd k} fresh=1 log=- ; {fmtCSpec s.sp}")
+        | _, _ => (s, "bad-op")
+      | _ =>
+      match parseOp w with
       | none => (s, "bad-op")
-      | some (.tcopy r) => if holdsReg s.m r then stepOp s (.tcopy r) else (s, "bad-op")
       | some op => stepOp s op
 
 /-- `set_handler` answers a bool: the return code among the internals is 0 or -1 -/
